@@ -220,15 +220,17 @@ Definition engine_violations_c17 (cs : list ecase) : list (N * N) := classify c1
 (* ---- C06: reserved flags are tamper-proof; TERMINATE blocks ------------------------------------------ *)
 (* observed: while TERMINATE is set in the stored session (and no entry function is configured)
    a request reports stop, produces no output, calls nothing and leaves the position alone *)
-Fixpoint c06_blocked (prev : option osnap) (steps : list (bytes * eobs)) : bool :=
+(* skip_dirty: do not judge a request whose stored session still had DIRTY set (the page of the
+   terminating request was never delivered: K-C06-dirty) *)
+Fixpoint c06_blocked_gen (skip_dirty : bool) (c : config) (prev : option osnap) (steps : list (bytes * eobs)) : bool :=
   match steps with
   | [] => true
   | (i, o) :: r =>
     (match prev with
      | Some a =>
-       (* (a page left unrendered by the terminating request -- DIRTY still set -- is delivered by
-          the next Flush: the theorem and the monitor speak of sessions whose output was flushed) *)
-       if oflag a FLAG_TERMINATE && negb (oflag a FLAG_DIRTY) && negb (refused_b i) then
+       if oflag a FLAG_TERMINATE && negb (skip_dirty && oflag a FLAG_DIRTY) && negb (refused_b i)
+          && negb (c_reset_empty c && (len i =? 0))   (* ResetOnEmptyInput restarts the session by design *)
+       then
          negb (eo_cont o) && bytes_eqb (eo_out o) [] && no_app_calls o
          && match eo_snap o with
             | Some b => list_eqb bytes_eqb (os_path a) (os_path b) && (os_idx a =? os_idx b)
@@ -237,8 +239,10 @@ Fixpoint c06_blocked (prev : option osnap) (steps : list (bytes * eobs)) : bool 
             end
        else true
      | None => true
-     end) && c06_blocked (eo_snap o) r
+     end) && c06_blocked_gen skip_dirty c (eo_snap o) r
   end.
+Definition c06_blocked (c : config) (steps : list (bytes * eobs)) : bool := c06_blocked_gen false c None steps.
+Definition c06_blocked_weak (c : config) (steps : list (bytes * eobs)) : bool := c06_blocked_gen true c None steps.
 (* reserved flags 0..5 can only be changed by the VM itself: an entry function that asks for
    them must not get them.  Observable instance: RESERVED (5) is never set, and LOADFAIL (3)
    is set only if some entry function failed *)
@@ -250,9 +254,15 @@ Definition c06_reserved (ec : ecase) : bool :=
                     | Some os => negb (oflag os FLAG_RESERVED)
                                  && (if oflag os FLAG_LOADFAIL then any_fail (ec_app ec) (ec_cfg ec) else true)
                     | None => true end) (both_steps ec).
+(* class 1 = K-C06-first (entry function configured); class 2 = K-C06-dirty (the request that set
+   TERMINATE failed before its page was flushed: the next, blocked, request delivers that page) *)
 Definition c06_class (ec : ecase) : option N :=
-  if c06_reserved ec && c06_blocked None (ec_pers ec) then None
-  else match c_first (ec_cfg ec) with Some _ => if c06_reserved ec then Some 1 else Some 0 | None => Some 0 end.
+  if negb (c06_reserved ec) then Some 0
+  else if c06_blocked (ec_cfg ec) (ec_pers ec) then None
+  else match c_first (ec_cfg ec) with
+       | Some _ => Some 1
+       | None => if c06_blocked_weak (ec_cfg ec) (ec_pers ec) then Some 2 else Some 0
+       end.
 Definition engine_violations_c06 (cs : list ecase) : list (N * N) := classify c06_class 0 cs.
 
 (* ---- C20: graceful end restarts cleanly; termination stays blocked ------------------------------------ *)
@@ -281,8 +291,12 @@ Fixpoint c20_steps (c : config) (prev : option osnap) (steps : list (bytes * eob
 (* class 1 = K-C20-first: entry function configured (a blocked request outputs its stale value;
    TERMINATE set by it is cleared by the engine) *)
 Definition c20_class (ec : ecase) : option N :=
-  if c20_steps (ec_cfg ec) None (ec_pers ec) && c06_blocked None (ec_pers ec) then None
-  else match c_first (ec_cfg ec) with Some _ => Some 1 | None => Some 0 end.
+  let g := c20_steps (ec_cfg ec) None (ec_pers ec) in
+  if g && c06_blocked (ec_cfg ec) (ec_pers ec) then None
+  else match c_first (ec_cfg ec) with
+       | Some _ => Some 1
+       | None => if g && c06_blocked_weak (ec_cfg ec) (ec_pers ec) then Some 2 else Some 0
+       end.
 Definition engine_violations_c20 (cs : list ecase) : list (N * N) := classify c20_class 0 cs.
 
 (* ---- ghost events: what the model (which the correspondence check ties to the code on the
